@@ -117,7 +117,7 @@ impl Engine {
                         cases: per as u32,
                         failure_persistence: None,
                         rng_seed: RngSeed::Fixed(fnv64(seedsrc.as_bytes())),
-                        max_shrink_iters: 600,
+                        max_shrink_iters: 200,
                         max_global_rejects: 100_000,
                         verbose: 0,
                         ..Config::default()
